@@ -106,8 +106,12 @@ def iter (g : Graph) (vec : Bool) : Nat → St → St
       | none => st
       | some st' => iter g vec n st'
 
-def setAll {α} (l : List α) (idx : List Nat) (f : Nat → α) : List α :=
-  (idx.zipIdx).foldl (fun acc p => acc.set p.1 (f p.2)) l
+/-- `l[idx] = f(arange(len(idx)))` (a later duplicate index wins) -/
+def setAllFrom {α} (f : Nat → α) : List Nat → Nat → List α → List α
+  | [], _, l => l
+  | s :: ss, i, l => setAllFrom f ss (i + 1) (l.set s (f i))
+
+def setAll {α} (l : List α) (idx : List Nat) (f : Nat → α) : List α := setAllFrom f idx 0 l
 
 def initSt (g : Graph) (seeds : List Nat) : St :=
   { dist := setAll (List.replicate g.V none) seeds (fun _ => some 0),
@@ -148,16 +152,16 @@ distances of every seed are certified, unlabelled = infinite distance, and the v
 as close to the seed of its label as to the whole seed set. -/
 def voronoiCert (g : Graph) (seeds : List Nat) (lab : List (Option Nat)) : Bool :=
   let dS := dijkstra g seeds
-  let dI := seeds.map (fun s => dijkstra g [s])
+  let dI := seeds.map (fun s => (s, dijkstra g [s]))
   certOK g seeds dS &&
-  (seeds.zip dI).all (fun p => certOK g [p.1] p.2) &&
+  dI.all (fun p => certOK g [p.1] p.2) &&
   (List.range g.V).all (fun v =>
     match lab.getD v none with
     | none => dS.getD v none == none
     | some i =>
         match dI[i]? with
         | none => false
-        | some di => (dS.getD v none).isSome && di.getD v none == dS.getD v none)
+        | some p => (dS.getD v none).isSome && p.2.getD v none == dS.getD v none)
 
 /-! ### Connected components: `lil_cc` -/
 
